@@ -3,6 +3,8 @@ package props
 import (
 	"context"
 	"fmt"
+	"math"
+	"math/rand/v2"
 	"sync"
 	"sync/atomic"
 	"time"
@@ -226,9 +228,21 @@ func init() {
 				cse.TimeoutMS = 90000
 				cs = append(cs, cse)
 			}
+			// very long soaks: the cumulative execution time of one outcome passes the capacity of a 64-bit nanosecond
+			// sum (100000 busy workers reach it in about a day); the averages are then meaningless, the counts are not
+			nsoak := 3
+			if tier == "thorough" {
+				nsoak = 24
+			}
+			for i := 0; i < nsoak; i++ {
+				cse := core.MkCase("C01", "soak", i, seed, map[string]int{"waves": 40 + r.IntN(40), "workers": pick(r, 1, 2, 4, 8), "per_wave": 20000 + r.IntN(80000)})
+				cse.Race = i%3 == 2
+				cse.TimeoutMS = 90000
+				cs = append(cs, cse)
+			}
 			return cs
 		},
-		Kinds:  map[string]core.RunFunc{"stress": c01Stress, "porcupine": c01Porcupine, "run": c01Run, "integration": c01Integration, "f2": c01F2},
+		Kinds:  map[string]core.RunFunc{"stress": c01Stress, "porcupine": c01Porcupine, "run": c01Run, "integration": c01Integration, "f2": c01F2, "soak": c01Soak},
 		Floors: map[string]int64{"records": 200000, "snapshots_overlapping_record": 200, "porcupine_histories": 1000, "runs_two_outcomes": 8, "progress_lines": 3},
 	})
 }
@@ -883,4 +897,76 @@ func attrUint(line, key string) uint64 {
 		j++
 	}
 	return n
+}
+
+// c01Soak: waves of completions whose durations add up to more than 2^63 ns per outcome (several times over), a progress
+// snapshot at the quiescent point after every wave and the totals at the end: the three counts are exact throughout.
+func c01Soak(c *core.Case, o *core.Outcome) {
+	var pp map[string]int
+	c.Params(&pp)
+	r := c.Rng("soak")
+	waves, workers, per := pp["waves"], pp["workers"], pp["per_wave"]
+	if c.Race {
+		per /= 4
+	}
+	stats := &progress.Stats{}
+	var s, f, d uint64
+	// the duration of one iteration: chosen so that the successful sum passes 2^63 after about a third of the waves
+	base := int64(math.MaxInt64) / int64(per) / int64(waves/3+1)
+	passedAt := 0
+	var sumS, sumF float64
+	for w := 1; w <= waves; w++ {
+		var wg sync.WaitGroup
+		var ws, wf, wd atomic.Uint64
+		for g := 0; g < workers; g++ {
+			g := g
+			seed := r.Uint64()
+			wg.Add(1)
+			go func() {
+				defer wg.Done()
+				rr := rand.New(rand.NewPCG(seed, uint64(g)))
+				for k := g; k < per; k += workers {
+					dur := base/2 + rr.Int64N(base)
+					switch x := rr.IntN(100); {
+					case x < 1:
+						stats.Record(metrics.DroppedResult, 0)
+						wd.Add(1)
+					case x < 40:
+						stats.Record(metrics.FailedResult, dur)
+						wf.Add(1)
+					default:
+						stats.Record(metrics.SuccessResult, dur)
+						ws.Add(1)
+					}
+				}
+			}()
+		}
+		wg.Wait()
+		s, f, d = s+ws.Load(), f+wf.Load(), d+wd.Load()
+		sumS += float64(ws.Load()) * float64(base)
+		sumF += float64(wf.Load()) * float64(base)
+		var snap progress.Snapshot
+		if w == waves {
+			snap = stats.Total()
+		} else {
+			snap = stats.Snapshot(time.Second)
+		}
+		o.Events += int64(per)
+		o.AddObs("records", int64(per))
+		if sumS > math.MaxInt64 {
+			o.AddObs("soak_snapshots_beyond_2^63ns", 1)
+			if passedAt == 0 {
+				passedAt = w
+			}
+		}
+		gs, gf, gd := snap.SuccessfulIterationDurations.Count, snap.FailedIterationDurations.Count, snap.DroppedIterationCount
+		if gs != s || gf != f || gd != d {
+			o.Violate("soak-counts", "after wave %d of %d (%d workers; about %.3g ns of successful and %.3g ns of failed execution time so far, int64 holds %.3g): %d passed, %d failed, %d were dropped, the statistics state %d successful, %d failed, %d dropped", w, waves, workers, sumS, sumF, float64(math.MaxInt64), s, f, d, gs, gf, gd)
+			return
+		}
+	}
+	if passedAt > 0 {
+		o.Sig("soak:workers=%d:wrapped-failed=%v", workers, sumF > math.MaxInt64)
+	}
+	o.Sample = map[string]any{"waves": waves, "per_wave": per, "workers": workers, "successful_sum_passed_2^63_at_wave": passedAt}
 }
